@@ -31,7 +31,8 @@ REQUIRED = {"same_name_sibling_roundtrips": 100,
             "gameplan_roundtrips": 100, "ordering_roundtrips": 50,
             "result_tables": 40, "statistics_tables": 20,
             "tables_with_mixed_optional_columns": 15,
-            "tables_with_runs_of_one_setup": 8}
+            "tables_with_runs_of_one_setup": 8,
+            "records_with_a_reduced_bin_bound_selection": 20}
 
 
 def plan(tier: str, seed: int):
@@ -348,6 +349,9 @@ def build_records(ctx, n_rec):
         for k in ("max_fes", "max_time", "goal_f"):
             if rng.integers(2):
                 pol[k] = "mixed-within"
+    from moptipyapps.binpacking2d import packing_result as _prm
+    DEFAULT_BB = dict(getattr(_prm, "_DEFAULT_BOUNDS", {}))  # noqa: N806
+    mixed_bounds = len(DEFAULT_BB) >= 2 and rng.integers(3) == 0
     # within one (algo, inst, objective, encoding) group budgets are constant
     recs = []
     spec = []
@@ -403,8 +407,22 @@ def build_records(ctx, n_rec):
                   max_fes=g["mf"] if g["max_fes"] else None,
                   max_time_millis=g["mt"] if g["max_time"] else None)
         er = EndResult(**sp)
-        recs.append(from_packing_and_end_result(er, y))
-        spec.append({"desc": desc, "perm": perm, "er": sp})
+        # which bin bounds a record carries is the caller's choice (the
+        # public `bin_bounds` argument): in every third table the records do
+        # not all carry the same ones (results gathered with and without the
+        # slow bound, merged into one table)
+        bb = None
+        if mixed_bounds and rng.integers(2):
+            keys = sorted(DEFAULT_BB)
+            bb = sorted(str(k) for k in rng.choice(
+                keys, int(rng.integers(1, len(keys))), replace=False))
+        if bb is None:
+            recs.append(from_packing_and_end_result(er, y))
+        else:
+            recs.append(from_packing_and_end_result(
+                er, y, bin_bounds={k: DEFAULT_BB[k] for k in bb}))
+            ctx.count("records_with_a_reduced_bin_bound_selection")
+        spec.append({"desc": desc, "perm": perm, "er": sp, "bb": bb})
     pats = {(s["er"]["encoding"] is None, s["er"]["goal_f"] is None,
              s["er"]["max_fes"] is None, s["er"]["max_time_millis"] is None)
             for s in spec}
@@ -640,8 +658,14 @@ def replay(ctx, case):
             y = PackingSpace(inst).create()
             ImprovedBottomLeftEncoding1(inst).decode(
                 wb.x_array(s["perm"], inst), y)
-            recs.append(prm.from_packing_and_end_result(
-                EndResult(**s["er"]), y))
+            if s.get("bb"):
+                dbb = dict(prm._DEFAULT_BOUNDS)
+                recs.append(prm.from_packing_and_end_result(
+                    EndResult(**s["er"]), y,
+                    bin_bounds={k: dbb[k] for k in s["bb"]}))
+            else:
+                recs.append(prm.from_packing_and_end_result(
+                    EndResult(**s["er"]), y))
         home = os.environ.get("VERIF_HOME", "/verif")
         path = os.path.join(home, ".work", f"c19-replay-{os.getpid()}.txt")
         os.makedirs(os.path.dirname(path), exist_ok=True)
